@@ -59,11 +59,15 @@ claimed = {
    text="Function-level part of the containment argument, for all entries: the deferred recover handler of FSM.applyProto (verified as its own unit, the closure applyProto$1) is proved to re-encode exactly the message being applied with its type set to MessageOfDeath and to write exactly that log entry (same index, term, type) to the durable raft log store fsm.store before terminating; FSM.applyRobustMessage is proved to do nothing for such an entry except advancing the session's duplicate-detection marker (postconditions mod-marked and mod-frame: no session, nickname, channel or configuration change), UpdateLastClientMessageID sets the marker for every entry type; FSM.Snapshot is proved to fold a marked entry through applyRobustMessage before deleting it (the marker of the snapshot state has advanced over every marked entry it drops).",
    note="Not covered: that a panic actually reaches the handler and the process exits (panic/exit control flow is not modelled), the restart, raft's own replay; 'all other entries keep their effect' is C01/C02. Assumes glog.Fatalf terminates, the store keeps what StoreLogProto wrote (C09), proto.Marshal encodes its argument (C18).",
    design="§5 C07"),
+ "C09": dict(
+   text="Function-level obligations of the store, for all arguments: DeleteRange iterates from the key of min to the smallest key greater than the key of max without any arithmetic that could wrap (exact 64-bit arithmetic) and a successful call has written its batch (postcondition over an assumed write counter); GetLog maps the database's not-found error to raft.ErrLogNotFound and, like raftlog.FromBytes, decodes every field of the stored entry (raftRepr); StoreLogs/StoreLogProto/ConvertToProto encode every field and file each entry under the 8-byte key of its own index; the stable-store methods only touch keys that start with 'stablestore-' (12 bytes), so log keys and stable keys can never be equal.",
+   note="Not covered: FirstIndex/LastIndex, the empty-log answer, and everything about operation sequences, close/reopen and kill/reopen - these need a model of the ordered key-value store and of iterator positions that the contracts do not have; goleveldb itself is assumed to keep what it is given. Fixed: DeleteRange(min, MaxUint64) deleted nothing (max+1 wrapped).",
+   design="§5 C09"),
 }
 na = {
  "C05": "whole-system property over process kills, restarts and leader changes of several OS processes running hashicorp/raft; no function contract within reach expresses it (DESIGN §5 C05)",
 }
-notbuilt = ["C02","C04","C08","C09","C20"]
+notbuilt = ["C02","C04","C08","C20"]
 checks = []
 for pid, c in sorted(claimed.items()):
     checks.append({
